@@ -269,7 +269,10 @@ func init() {
 				return OK()
 			}
 			// HTML
-			if out, err := runTool(dir, 20*time.Second, cli, "audit2html", target+".audit.json", "report.html"); err != nil {
+			if out, err := runTool(dir, 60*time.Second, cli, "audit2html", target+".audit.json", "report.html"); err != nil {
+				if err.Error() == "timeout" {
+					return Inconclusive("native converter timed out (machine overloaded)")
+				}
 				return Viol("converter-failed", "", "scipipe audit2html %s.audit.json failed: %v: %s", target, err, clip([]byte(out)))
 			}
 			hb, _ := os.ReadFile(filepath.Join(dir, "report.html"))
@@ -281,7 +284,10 @@ func init() {
 				return v
 			}
 			// TeX
-			if out, err := runTool(dir, 20*time.Second, cli, "audit2tex", target+".audit.json", "report.tex"); err != nil {
+			if out, err := runTool(dir, 60*time.Second, cli, "audit2tex", target+".audit.json", "report.tex"); err != nil {
+				if err.Error() == "timeout" {
+					return Inconclusive("native converter timed out (machine overloaded)")
+				}
 				return Viol("converter-failed", "", "scipipe audit2tex %s.audit.json failed: %v: %s", target, err, clip([]byte(out)))
 			}
 			tb, _ := os.ReadFile(filepath.Join(dir, "report.tex"))
@@ -293,7 +299,10 @@ func init() {
 				return v
 			}
 			// Bash: listing by process name (ids are not rendered), then execute
-			if out, err := runTool(dir, 20*time.Second, cli, "audit2bash", target+".audit.json", "report.sh"); err != nil {
+			if out, err := runTool(dir, 60*time.Second, cli, "audit2bash", target+".audit.json", "report.sh"); err != nil {
+				if err.Error() == "timeout" {
+					return Inconclusive("native converter timed out (machine overloaded)")
+				}
 				return Viol("converter-failed", "", "scipipe audit2bash %s.audit.json failed: %v: %s", target, err, clip([]byte(out)))
 			}
 			sb, _ := os.ReadFile(filepath.Join(dir, "report.sh"))
@@ -322,10 +331,13 @@ func init() {
 			os.MkdirAll(filepath.Join(run, ".bin"), 0777)
 			os.Symlink(opBin, filepath.Join(run, ".bin", "op"))
 			os.WriteFile(filepath.Join(run, "report.sh"), sb, 0777)
-			cmd := exec.Command("bash", "report.sh")
+			cmd := exec.Command("timeout", "120", "bash", "report.sh")
 			cmd.Dir = run
 			cmd.Env = []string{"PATH=" + filepath.Join(run, ".bin") + ":/usr/bin:/bin"}
 			outb, rerr := cmd.CombinedOutput()
+			if ee, ok := rerr.(*exec.ExitError); ok && ee.ExitCode() == 124 {
+				return Inconclusive("generated script timed out (machine overloaded)")
+			}
 			want := ex.Files[Abs(target)]
 			got, ferr := os.ReadFile(filepath.Join(run, target))
 			if rerr != nil || ferr != nil || string(got) != string(want) {
